@@ -121,3 +121,15 @@ VARIANTS += [
       "violation"),
 ]
 
+
+VARIANTS += [
+    V("from-str-truncates-long-text", F,
+      "np.fromstring(text, dtype=x.dtype, sep=CSV_SEPARATOR)",
+      "np.fromstring(text, dtype=x.dtype, sep=CSV_SEPARATOR, "
+      "count=x.size)", "fire", "D4.2",
+      "seed C04-from-str-truncates-long-text"),
+    V("silent-from-str-count-all", F,
+      "np.fromstring(text, dtype=x.dtype, sep=CSV_SEPARATOR)",
+      "np.fromstring(text, dtype=x.dtype, sep=CSV_SEPARATOR, count=-1)",
+      "silent", "", "count=-1 is the default"),
+]
